@@ -12,6 +12,7 @@ use flacenc::config;
 use flacenc::error::Verify;
 
 const EXP: bool = cfg!(feature = "experimental");
+static HUNG: std::sync::atomic::AtomicBool = std::sync::atomic::AtomicBool::new(false);
 
 pub fn from_encoder(e: &config::Encoder) -> Cfg {
     let mut c = Cfg::default();
@@ -95,7 +96,16 @@ fn probe(cfg: &Cfg, corpus: &[gen::Pcm]) -> String {
     for (i, p) in corpus.iter().enumerate() {
         for mode in ["st", "mt:2"] {
             let (c2, p2) = (cfg.clone(), p.clone());
-            let r = catch(move || encode(&c2, &p2, mode, "mem").map(|s| stream_bytes(&s)));
+            // an accepted configuration must not hang either: every probe runs under a watchdog
+            let (tx, rx) = std::sync::mpsc::channel();
+            std::thread::spawn(move || {
+                let r = catch(move || encode(&c2, &p2, mode, "mem").map(|s| stream_bytes(&s)));
+                let _ = tx.send(r);
+            });
+            let r = match rx.recv_timeout(std::time::Duration::from_secs(10)) {
+                Ok(r) => r,
+                Err(_) => return format!("fail:hang_on_probe_{i}_{mode}"),
+            };
             match r {
                 Err(m) => return format!("fail:panic_on_probe_{i}_{mode}_{m}"),
                 Ok(Err(e)) => return format!("fail:error_on_probe_{i}_{mode}_{e}"),
@@ -119,7 +129,11 @@ fn verify_record(id: &str, class: &str, cfg: &Cfg, corpus: &[gen::Pcm], with_pro
         Err(_) => ("panic".to_string(), false),
     };
     let expected = in_range(cfg);
-    let pr = if accepted && with_probe { probe(cfg, corpus) } else { "skipped".to_string() };
+    let hung = HUNG.load(std::sync::atomic::Ordering::SeqCst);
+    let pr = if accepted && with_probe && !hung { probe(cfg, corpus) } else { "skipped".to_string() };
+    if pr.starts_with("fail:hang") {
+        HUNG.store(true, std::sync::atomic::Ordering::SeqCst);
+    }
     let o = if impl_s == "panic" {
         "fail:verify_panicked".to_string()
     } else if accepted != expected {
